@@ -1,6 +1,7 @@
 #!/bin/sh
 # usage: run.sh <ID> <quick|thorough>   (rebuilds from /repo's working tree, then runs the check)
-export GOFLAGS=-mod=mod GOPROXY=off GOSUMDB=off GOTOOLCHAIN=local
-cd /verif || exit 2
-sh ./build.sh >/verif/.build.log 2>&1 || { cat /verif/.build.log; echo "build failed"; exit 2; }
-exec /verif/bin/vcheck run "$1" --tier "${2:-quick}"
+H=$(cd "$(dirname "$0")" && pwd)
+cd $H || exit 2
+mkdir -p .build
+sh ./build.sh >$H/.build/build.log 2>&1 || { cat $H/.build/build.log; echo "build failed"; exit 2; }
+exec $H/bin/vcheck run "$1" --tier "${2:-quick}"
